@@ -362,3 +362,37 @@ func VerifC16_R7(v *VerifV) {
 		v.Cover("boundary-56")
 	}
 }
+
+// VerifC16_R8: input-limit enforcement before allocation in nested lists: a limited stream over
+// L symbolic bytes that starts with two list headers is walked with List, List, then up to four
+// element reads (Bytes) with ListEnd attempts in between - whatever the bytes, no call panics and
+// no call allocates more than the input holds (the engine bounds every allocation by L).
+func VerifC16_R8(v *VerifV) {
+	L := v.Param("L")
+	b := v.Bytes("b", L)
+	v.Assume(b[0] >= 0xC0 && b[0] <= 0xF7 && b[1] >= 0xC0 && b[1] <= 0xF7) // two short-form list headers
+	s := NewStream(bytes.NewReader(b), uint64(L))
+	if _, err := s.List(); err != nil {
+		v.Cover("rejected")
+		return
+	}
+	if _, err := s.List(); err != nil {
+		v.Cover("rejected")
+		return
+	}
+	v.Cover("nested-list-entered")
+	for i := 0; i < 4; i++ {
+		if _, err := s.Bytes(); err != nil {
+			if err == EOL {
+				if s.ListEnd() != nil {
+					v.Cover("rejected")
+					return
+				}
+				continue
+			}
+			v.Cover("rejected")
+			return
+		}
+		v.Cover("element-read")
+	}
+}
